@@ -1219,7 +1219,7 @@ class CompartmentalSystem(Statement):
                 # FIXME: Use another method than compartment name
                 metabolite = self.find_compartment("METABOLITE")
                 if metabolite is None or not self.get_flow(to_central, metabolite):
-                    break
+                    continue
             inflows = self.get_compartment_inflows(to_central)
             for in_comp, _ in inflows:
                 if in_comp == central:
